@@ -12,7 +12,9 @@ EXPLANATION = (
     "(struct / enum / newtype), on the set of field / variant ids, per id on the tag type and on the Rust field / variant it maps to; a field whose "
     "absence the reader rejects (required) is written unconditionally; unknown ids are skipped (no fallback) or captured and replayed through the same "
     "field (fallback: add_to_unknown_fields ↔ serialize_struct2_with_unknown_fields, into_unknown_variant ↔ serialize_unknown_variant); unknown variants "
-    "without fallback are an error; where Introspectable is derived too, its field / variant ids equal those of the codec. A defect in the generator "
+    "without fallback are an error; where Introspectable is derived too, its field / variant ids equal those of the codec; (R3) the runtime half of the fallback clause in aldrin_core — add_to_unknown_fields / "
+    "into_unknown_variant store every unknown field / variant under its id on every non-error path, serialize_unknown_fields (both encodings) / "
+    "serialize_unknown_variant write id and value of every captured one. A defect in the generator "
     "shows up in every expansion that uses the feature. NOT decided: 'for every valid schema' (the generator as a function), that generated code compiles "
     "(that is the build)."
 )
@@ -149,3 +151,68 @@ def run(rep):
         rep.check(ids == codec_ids, "C16-R2", b.def_, "introspection-ids", "%s: the introspection layout lists ids %s, the codec uses %s" % (key.split("::")[-1], sorted(ids), sorted(codec_ids)), line=b.span, detail={"layout": sorted(ids), "codec": sorted(codec_ids)})
     rep.floor("C16-R2", "generated types with introspection", n_intro, 20)
     rep.analysed["corpus_types"] = n_types
+    r3(rep, prog)
+
+
+def err_edges(b):
+    out = set()
+    for u in b.live_blocks():
+        if b.blocks[u]["t"]["k"] != "switch":
+            continue
+        g = b.switch_guard(u)
+        if g and g.get("kind") == "variant" and (g.get("adt") or "").endswith("ControlFlow"):
+            for v in b.succ(u):
+                if "Break" in (b.edge_label(u, v) or []):
+                    out.add((u, v))
+    return out
+
+
+def r3(rep, prog):
+    """the runtime half of the fallback clause: what generated code calls to capture and to replay unknown fields /
+    variants must store / write every one of them (must-pass-through on every non-error path)"""
+    C = "aldrin_core::"
+    # (a) capture of an unknown field
+    b = prog.one("^" + re.escape(C) + r"deserializer::struct_::FieldDeserializer::<'a, 'b>::add_to_unknown_fields$")
+    ins = [c for c in b.calls if c.name == "insert" and any("self.unknown_fields" in d for d in b.describe(c.args[0]))]
+    ok = len(ins) == 1
+    if ok:
+        c = ins[0]
+        ok = b.describe(c.args[1]) == {"self.id"} and all(re.match(r"^Deserializer::deserialize\(Deserializer::new\(self\.buf, self\.depth\)\)", d) for d in b.describe(c.args[2])) \
+            and not (set(b.exits()) & b.reachable(0, without_nodes={c.bb}, without_edges=err_edges(b)))
+    rep.check(ok, "C16-R3", b.def_, "captures-every-unknown-field", "add_to_unknown_fields must store the decoded value under the field's id on every non-error path (an unknown field that is dropped here does not survive a decode/encode cycle)",
+              line=b.span, detail={"insert_sites": len(ins)})
+    # (b) capture of an unknown variant
+    b = prog.one("^" + re.escape(C) + r"deserializer::enum_::EnumDeserializer::<'a, 'b>::into_unknown_variant$")
+    nw = [c for c in b.calls if mir.short_fn(c.callee) == "UnknownVariant::new"]
+    ok = len(nw) == 1
+    if ok:
+        c = nw[0]
+        ok = b.describe(c.args[0]) == {"self.id"} and all(re.match(r"^EnumDeserializer::deserialize\(self\)", d) for d in b.describe(c.args[1])) \
+            and not (set(b.exits()) & b.reachable(0, without_nodes={c.bb}, without_edges=err_edges(b)))
+    rep.check(ok, "C16-R3", b.def_, "captures-unknown-variant", "into_unknown_variant must keep the variant's id and its decoded value", line=b.span, detail={"sites": len(nw)})
+    # (c) replay of unknown fields
+    n = 0
+    for d, b in sorted(prog.bodies.items()):
+        if not re.match("^" + re.escape(C) + r"serializer::struct_::Struct[12]Serializer::<'a>::serialize_unknown_fields$", d):
+            continue
+        n += 1
+        nx = [c for c in b.calls if c.name == "next" and any("AsUnknownFields::fields(unknown_fields)" in x for x in b.describe(c.args[0]))]
+        ITEM = r"^Iterator::next\(AsUnknownFields::fields\(unknown_fields\)\)\.0\.%d$"
+        idw = [c for c in b.calls if c.name in ("put_varint_u32_le", "serialize") and any(any(re.match(ITEM % 0, x) for x in b.describe(a)) for a in c.args)]
+        vw = [c for c in b.calls if c.name == "serialize" and any(any(re.match(ITEM % 1, x) for x in b.describe(a)) for a in c.args)]
+        ok = len(nx) == 1 and bool(idw) and bool(vw)
+        if ok:
+            sw = [u for u in b.live_blocks() if b.blocks[u]["t"]["k"] == "switch" and (b.switch_guard(u) or {}).get("kind") == "variant"
+                  and any(x == "Iterator::next(AsUnknownFields::fields(unknown_fields))" for x in mir.describe_place(b, b.switch_guard(u)["place"], 8, set()))]
+            ok = len(sw) == 1
+            if ok:
+                sv = [v for v in set(b.succ(sw[0])) if "Some" in (b.edge_label(sw[0], v) or [])]
+                ok = len(sv) == 1 and nx[0].bb not in b.reachable(sv[0], without_nodes={idw[0].bb}) and nx[0].bb not in b.reachable(sv[0], without_nodes={vw[0].bb})
+        rep.check(ok, "C16-R3", b.def_, "replays-every-unknown-field", "serialize_unknown_fields must write id and value of every captured field (no iteration may skip the write)", line=b.span, detail={"id_writes": len(idw), "value_writes": len(vw)})
+    rep.floor("C16-R3", "serialize_unknown_fields implementations", n, 2)
+    # (d) replay of an unknown variant
+    b = prog.one("^" + re.escape(C) + r"serializer::Serializer::<'a>::serialize_unknown_variant$")
+    se = [c for c in b.calls if c.name == "serialize_enum"]
+    ok = len(se) == 1 and b.describe(se[0].args[1]) == {"AsUnknownVariant::id(variant)"} and b.describe(se[0].args[2]) == {"AsUnknownVariant::value(variant)"} \
+        and not (set(b.exits()) & b.reachable(0, without_nodes={se[0].bb}))
+    rep.check(ok, "C16-R3", b.def_, "replays-unknown-variant", "serialize_unknown_variant must write the captured id and value as an enum", line=b.span, detail={})
